@@ -376,6 +376,7 @@ spec fn one_changed(pre: Seq<NodeInfo>, post: Seq<NodeInfo>, n: int) -> bool {
     &&& post.len() == pre.len()
     &&& forall|k: int| 0 <= k < pre.len() && k != n ==> (#[trigger] post[k]).job_id == pre[k].job_id
             && post[k].state == pre[k].state && post[k].history_output == pre[k].history_output
+            && post[k].aborted_before_start == pre[k].aborted_before_start
     &&& post[n].job_id == pre[n].job_id
 }
 
@@ -535,6 +536,16 @@ spec fn keeps_records(s: JobState) -> bool {
     upfailed(s)
 }
 
+/// ... or because the run was aborted before the job had been started (finding F7, repaired: the engine marks such jobs)
+spec fn keeps_j(j: NodeInfo) -> bool {
+    upfailed(j.state) || j.aborted_before_start
+}
+
+/// C08: "was still running when the run was aborted"
+spec fn aborted_while_running(j: NodeInfo) -> bool {
+    is_aborted(j.state) && !j.aborted_before_start
+}
+
 spec fn same_at(a: Map<String, String>, b: Map<String, String>, k: String) -> bool {
     a.contains_key(k) == b.contains_key(k) && (a.contains_key(k) ==> a[k] == b[k])
 }
@@ -556,14 +567,14 @@ impl<T: PPGEvaluatorStrategy> PPGEvaluator<T> {
     spec fn rec_c08(&self, out: Map<String, String>, i: int) -> bool {
         let j = self.jobs@[i];
         let ik = str_of(key_inputs(j.job_id@));
-        j.history_output is None && !keeps_records(j.state) ==> !out.contains_key(j.job_id) && !out.contains_key(ik)
+        j.history_output is None && !keeps_j(j) ==> !out.contains_key(j.job_id) && !out.contains_key(ik)
     }
 
     /// C09: an upstream-failed job keeps its own / input-list record as filtered
     spec fn rec_c09(&self, out1: Map<String, String>, out: Map<String, String>, i: int) -> bool {
         let j = self.jobs@[i];
         let ik = str_of(key_inputs(j.job_id@));
-        j.history_output is None && keeps_records(j.state) ==> same_at(out1, out, j.job_id) && same_at(out1, out, ik)
+        j.history_output is None && keeps_j(j) ==> same_at(out1, out, j.job_id) && same_at(out1, out, ik)
     }
 
     /// records of present job i after the per-job loop of new_history (C08, C09, C11)
@@ -593,12 +604,12 @@ impl<T: PPGEvaluatorStrategy> PPGEvaluator<T> {
 
     /// C08: the record of a dependency into a failed / aborted job is left as it was
     spec fn edge_c08(&self, out2: Map<String, String>, out: Map<String, String>, a: usize, b: usize) -> bool {
-        !second_success(self.jobs@[b as int]) && !keeps_records(self.jobs@[b as int].state) ==> same_at(out2, out, str_of(self.edge_key(a, b)))
+        !second_success(self.jobs@[b as int]) && !keeps_j(self.jobs@[b as int]) ==> same_at(out2, out, str_of(self.edge_key(a, b)))
     }
 
     /// C09: the record of a dependency into an upstream-failed job is left as it was
     spec fn edge_c09(&self, out2: Map<String, String>, out: Map<String, String>, a: usize, b: usize) -> bool {
-        !second_success(self.jobs@[b as int]) && keeps_records(self.jobs@[b as int].state) ==> same_at(out2, out, str_of(self.edge_key(a, b)))
+        !second_success(self.jobs@[b as int]) && keeps_j(self.jobs@[b as int]) ==> same_at(out2, out, str_of(self.edge_key(a, b)))
     }
 
     /// C11: the record of a dependency into a successful job is the upstream's current output
@@ -685,7 +696,7 @@ impl<T: PPGEvaluatorStrategy> PPGEvaluator<T> {
     /// records of what it last consumed are as before
     spec fn post_c08(&self, r: Map<String, String>) -> bool {
         &&& forall|i: int| 0 <= i < self.jobs@.len()
-                && (is_exec_failure((#[trigger] self.jobs@[i]).state) || is_aborted(self.jobs@[i].state)) ==>
+                && (is_exec_failure((#[trigger] self.jobs@[i]).state) || aborted_while_running(self.jobs@[i])) ==>
                 !r.contains_key(self.jobs@[i].job_id) && !r.contains_key(self.ik(i))
         &&& forall|u: usize, i: usize| #![trigger self.dag.has_edge(u, i)] self.dag.has_edge(u, i)
                 && (is_exec_failure(self.jobs@[i as int].state) || is_aborted(self.jobs@[i as int].state)) ==>
@@ -695,11 +706,11 @@ impl<T: PPGEvaluatorStrategy> PPGEvaluator<T> {
     /// C09: jobs never started because an upstream failed keep all their records unchanged
     /// (for ids not superseded by another present job; see DESIGN on C18)
     spec fn post_c09(&self, r: Map<String, String>) -> bool {
-        &&& forall|i: int| 0 <= i < self.jobs@.len() && keeps_records((#[trigger] self.jobs@[i]).state)
+        &&& forall|i: int| 0 <= i < self.jobs@.len() && keeps_j(#[trigger] self.jobs@[i])
                 && self.jobs@[i].history_output is None && !superseded(self.jobs@, self.jobs@[i].job_id@) ==>
                 same_at(self.history@, r, self.jobs@[i].job_id) && same_at(self.history@, r, self.ik(i))
         &&& forall|u: usize, i: usize| #![trigger self.dag.has_edge(u, i)] self.dag.has_edge(u, i)
-                && keeps_records(self.jobs@[i as int].state) && self.jobs@[i as int].history_output is None ==>
+                && keeps_j(self.jobs@[i as int]) && self.jobs@[i as int].history_output is None ==>
                 same_at(self.history@, r, self.ek(u, i))
     }
 
@@ -836,8 +847,8 @@ impl<T: PPGEvaluatorStrategy> PPGEvaluator<T> {
         broadcast use group_verif_axioms;
         broadcast use group_verif_str_axioms;
         assert forall|i: int| 0 <= i < self.jobs@.len() && (#[trigger] self.jobs@[i]).history_output is None implies
-            (!keeps_records(self.jobs@[i].state) ==> !r.contains_key(self.jobs@[i].job_id) && !r.contains_key(self.ik(i)))
-            && (keeps_records(self.jobs@[i].state) && !superseded(self.jobs@, self.jobs@[i].job_id@) ==>
+            (!keeps_j(self.jobs@[i]) ==> !r.contains_key(self.jobs@[i].job_id) && !r.contains_key(self.ik(i)))
+            && (keeps_j(self.jobs@[i]) && !superseded(self.jobs@, self.jobs@[i].job_id@) ==>
                 same_at(self.history@, r, self.jobs@[i].job_id) && same_at(self.history@, r, self.ik(i))) by {
             assert(self.job_rec_ok(out1, out2, i));
             self.lemma_job_keys_not_edge_keys(es, i);
@@ -859,8 +870,8 @@ impl<T: PPGEvaluatorStrategy> PPGEvaluator<T> {
             assert(same_at(out1, out2, self.ek(u, i)));
             self.lemma_keep_edge_key(u, i);
         }
-        assert forall|i: int| 0 <= i < self.jobs@.len() && (is_exec_failure((#[trigger] self.jobs@[i]).state) || is_aborted(self.jobs@[i].state))
-            implies self.jobs@[i].history_output is None && !second_success(self.jobs@[i]) && !keeps_records(self.jobs@[i].state) by {
+        assert forall|i: int| 0 <= i < self.jobs@.len() && (is_exec_failure((#[trigger] self.jobs@[i]).state) || aborted_while_running(self.jobs@[i]))
+            implies self.jobs@[i].history_output is None && !second_success(self.jobs@[i]) && !keeps_j(self.jobs@[i]) by {
             assert(out_wf_one(self.jobs@[i]));
         }
         assert forall|u: usize, i: usize| #![trigger self.dag.has_edge(u, i)] self.dag.has_edge(u, i)
@@ -869,7 +880,7 @@ impl<T: PPGEvaluatorStrategy> PPGEvaluator<T> {
             assert(out_wf_one(self.jobs@[i as int]));
         }
         assert forall|u: usize, i: usize| #![trigger self.dag.has_edge(u, i)] self.dag.has_edge(u, i)
-            && keeps_records(self.jobs@[i as int].state) && self.jobs@[i as int].history_output is None implies
+            && keeps_j(self.jobs@[i as int]) && self.jobs@[i as int].history_output is None implies
             same_at(self.history@, r, self.ek(u, i)) by {
             assert(!second_success(self.jobs@[i as int]));
         }
@@ -1079,13 +1090,14 @@ proof fn lemma_sigs_valid_ok(s: Seq<Signal>, jobs: Seq<NodeInfo>)
 spec fn jobs_touch(a: Seq<NodeInfo>, b: Seq<NodeInfo>) -> bool {
     &&& a.len() == b.len()
     &&& forall|i: int| 0 <= i < a.len() ==> (#[trigger] b[i]).job_id == a[i].job_id && b[i].history_output == a[i].history_output
-            && b[i].state == a[i].state
+            && b[i].state == a[i].state && b[i].aborted_before_start == a[i].aborted_before_start
 }
 
 /// only pre-offer states move (within pre-offer); ids and outputs untouched
 spec fn jobs_soft(a: Seq<NodeInfo>, b: Seq<NodeInfo>) -> bool {
     &&& a.len() == b.len()
     &&& forall|i: int| 0 <= i < a.len() ==> (#[trigger] b[i]).job_id == a[i].job_id && b[i].history_output == a[i].history_output
+            && b[i].aborted_before_start == a[i].aborted_before_start
             && (b[i].state == a[i].state || (pre_offer(a[i].state) && pre_offer(b[i].state) && same_kind(a[i].state, b[i].state)
                 && pre_le(a[i].state, b[i].state)))
 }
@@ -1130,6 +1142,7 @@ spec fn is_skipfc(s: JobState) -> bool { s == JobState::Ephemeral(JobStateEpheme
 spec fn cleanup_frame(a: Seq<NodeInfo>, b: Seq<NodeInfo>) -> bool {
     &&& a.len() == b.len()
     &&& forall|i: int| 0 <= i < a.len() ==> (#[trigger] b[i]).job_id == a[i].job_id && b[i].history_output == a[i].history_output
+            && b[i].aborted_before_start == a[i].aborted_before_start
             && (b[i].state == a[i].state || (is_nrfc(a[i].state) && (is_rfc(b[i].state) || is_skipfc(b[i].state))))
 }
 
@@ -1153,6 +1166,7 @@ proof fn lemma_cleanup_step(dag: &GraphType, jobs0: Seq<NodeInfo>, j0: Seq<NodeI
     requires
         cleanup_frame(jobs0, j0), one_changed(j0, j1, e as int),
         j1[e as int].history_output == j0[e as int].history_output,
+        j1[e as int].aborted_before_start == j0[e as int].aborted_before_start,
         j0[e as int].state == jobs0[e as int].state,
         forall|i: int, k: int| 0 <= i < j0.len() && 0 <= k < j0.len() && i != k ==> (#[trigger] j0[i]).job_id != (#[trigger] j0[k]).job_id,
         forall|i: int| 0 <= i < j0.len() ==> (is_rfc(#[trigger] j0[i].state) <==> set0.contains(j0[i].job_id)),
@@ -1165,8 +1179,10 @@ proof fn lemma_cleanup_step(dag: &GraphType, jobs0: Seq<NodeInfo>, j0: Seq<NodeI
         forall|i: int| 0 <= i < j1.len() ==> (is_rfc(#[trigger] j1[i].state) <==> set1.contains(j1[i].job_id)),
 {
     assert forall|i: int| 0 <= i < jobs0.len() implies (#[trigger] j1[i]).job_id == jobs0[i].job_id && j1[i].history_output == jobs0[i].history_output
+        && j1[i].aborted_before_start == jobs0[i].aborted_before_start
         && (j1[i].state == jobs0[i].state || (is_nrfc(jobs0[i].state) && (is_rfc(j1[i].state) || is_skipfc(j1[i].state)))) by {
-        if i != e as int { assert(j1[i].state == j0[i].state && j1[i].job_id == j0[i].job_id && j1[i].history_output == j0[i].history_output); }
+        if i != e as int { assert(j1[i].state == j0[i].state && j1[i].job_id == j0[i].job_id && j1[i].history_output == j0[i].history_output
+            && j1[i].aborted_before_start == j0[i].aborted_before_start); }
         assert(j0[i].job_id == jobs0[i].job_id);
     }
     assert forall|i: int, k: int| 0 <= i < j1.len() && 0 <= k < j1.len() && i != k implies (#[trigger] j1[i]).job_id != (#[trigger] j1[k]).job_id by {
@@ -1218,6 +1234,24 @@ spec fn gates_ok(jobs: Seq<NodeInfo>, dag: &GraphType) -> bool {
     &&& forall|i: int| 0 <= i < jobs.len() && needs_up(#[trigger] jobs[i].state) ==> all_up_done(dag, jobs, i as usize)
     &&& forall|i: int| 0 <= i < jobs.len() && cleanup_reached(#[trigger] jobs[i].state) ==> all_down_done(dag, jobs, i as usize)
     &&& blank_skips_ok(jobs, dag)
+    &&& flags_ok(jobs)
+}
+
+/// only aborted jobs are marked "aborted before they were started" (finding F7, repaired)
+spec fn flags_ok(jobs: Seq<NodeInfo>) -> bool {
+    forall|i: int| #![trigger jobs[i].aborted_before_start] 0 <= i < jobs.len() && jobs[i].aborted_before_start ==> is_aborted(jobs[i].state)
+}
+
+proof fn lemma_flag_of(jobs: Seq<NodeInfo>, dag: &GraphType, i: int)
+    requires gates_ok(jobs, dag), 0 <= i < jobs.len(),
+    ensures jobs[i].aborted_before_start ==> is_aborted(jobs[i].state),
+{
+}
+
+proof fn lemma_flags_none(jobs: Seq<NodeInfo>)
+    requires forall|i: int| #![trigger jobs[i].aborted_before_start] 0 <= i < jobs.len() ==> !jobs[i].aborted_before_start,
+    ensures flags_ok(jobs),
+{
 }
 
 /// an Ephemeral job that was skipped without anything to record (C10/C06: the assert in new_history)
@@ -1289,8 +1323,14 @@ proof fn lemma_gates_after_write(pre: Seq<NodeInfo>, post: Seq<NodeInfo>, dag: &
         cleanup_reached(post[n].state) ==> cleanup_reached(pre[n].state) || all_down_done(dag, pre, n as usize),
         same_kind(pre[n].state, post[n].state),
         skipped_blank(post[n]) ==> skipped_blank(pre[n]) || all_eph_down(dag, pre, n as usize),
+        post[n].aborted_before_start ==> is_aborted(post[n].state),
     ensures gates_ok(post, dag),
 {
+    assert(flags_ok(post)) by {
+        assert forall|i: int| #![trigger post[i].aborted_before_start] 0 <= i < post.len() && post[i].aborted_before_start implies is_aborted(post[i].state) by {
+            if i != n { assert(post[i].state == pre[i].state && post[i].aborted_before_start == pre[i].aborted_before_start); assert(pre[i].aborted_before_start); }
+        }
+    }
     assert(blank_skips_ok(post, dag)) by {
             assert forall|i: int| 0 <= i < pre.len() implies same_kind(pre[i].state, (#[trigger] post[i]).state) by {
             if i != n { assert(post[i].state == pre[i].state); }
@@ -1331,8 +1371,14 @@ proof fn lemma_gates_same_status(pre: Seq<NodeInfo>, post: Seq<NodeInfo>, dag: &
         forall|i: int| 0 <= i < pre.len() && cleanup_reached(#[trigger] post[i].state) ==> cleanup_reached(pre[i].state) || all_down_done(dag, pre, i as usize),
         forall|i: int| 0 <= i < pre.len() ==> same_kind(pre[i].state, (#[trigger] post[i]).state),
         forall|i: int| #![trigger skipped_blank(post[i])] 0 <= i < post.len() && skipped_blank(post[i]) ==> skipped_blank(pre[i]),
+        forall|i: int| #![trigger post[i].aborted_before_start] 0 <= i < post.len() && post[i].aborted_before_start ==> pre[i].aborted_before_start && post[i].state == pre[i].state,
     ensures gates_ok(post, dag2),
 {
+    assert(flags_ok(post)) by {
+        assert forall|i: int| #![trigger post[i].aborted_before_start] 0 <= i < post.len() && post[i].aborted_before_start implies is_aborted(post[i].state) by {
+            assert(pre[i].aborted_before_start);
+        }
+    }
     lemma_blank_skips_sub(pre, post, dag, dag2);
     assert forall|i: int| 0 <= i < post.len() && needs_up(#[trigger] post[i].state) implies all_up_done(dag2, post, i as usize) by {
         assert(all_up_done(dag, pre, i as usize));
@@ -1740,6 +1786,7 @@ proof fn lemma_write_ok(pre: Seq<NodeInfo>, post: Seq<NodeInfo>, m: Map<String, 
         needs_up(post[n].state) ==> needs_up(pre[n].state) || all_up_done(dag, pre, n as usize),
         cleanup_reached(post[n].state) ==> cleanup_reached(pre[n].state) || all_down_done(dag, pre, n as usize),
         skipped_blank(post[n]) ==> skipped_blank(pre[n]) || all_eph_down(dag, pre, n as usize),
+        post[n].aborted_before_start ==> is_aborted(post[n].state),
         pre[n].history_output is Some ==> post[n].history_output == pre[n].history_output,
         is_ready(pre[n].state) == is_ready(post[n].state) ==> r1 =~= r0,
         is_ready(pre[n].state) && !is_ready(post[n].state) ==> r1 =~= r0.remove(pre[n].job_id),
@@ -1931,6 +1978,7 @@ proof fn lemma_arm_write(oldj: Seq<NodeInfo>, pre: Seq<NodeInfo>, post: Seq<Node
         needs_up(post[n].state) ==> needs_up(pre[n].state) || all_up_done(dag, pre, n as usize),
         cleanup_reached(post[n].state) ==> cleanup_reached(pre[n].state) || all_down_done(dag, pre, n as usize),
         skipped_blank(post[n]) ==> skipped_blank(pre[n]) || all_eph_down(dag, pre, n as usize),
+        post[n].aborted_before_start ==> is_aborted(post[n].state),
         pre[n].history_output is Some ==> post[n].history_output == pre[n].history_output,
         is_ready(pre[n].state) == is_ready(post[n].state) ==> r1 =~= r0,
         is_ready(pre[n].state) && !is_ready(post[n].state) ==> r1 =~= r0.remove(pre[n].job_id),
@@ -2086,7 +2134,7 @@ proof fn lemma_all_finished_nothing_ready(jobs: Seq<NodeInfo>, m: Map<String, us
 proof fn lemma_set_output_ok(pre: Seq<NodeInfo>, post: Seq<NodeInfo>, m: Map<String, usize>, dag: &GraphType,
     r0: Set<String>, c0: Set<String>, fin: bool, n: int)
     requires core_ok(pre, m, dag, r0, c0, fin), one_changed(pre, post, n), post[n].state == pre[n].state,
-        is_running(pre[n].state), post[n].history_output is Some,
+        is_running(pre[n].state), post[n].history_output is Some, post[n].aborted_before_start == pre[n].aborted_before_start,
     ensures core_ok_x(post, m, dag, r0, c0, fin, n), jobs_step(pre, post),
 {
     lemma_ids_after_write(pre, post, m, n);
@@ -2275,6 +2323,7 @@ proof fn lemma_add_node_ok(pre: Seq<NodeInfo>, post: Seq<NodeInfo>, m0: Map<Stri
         forall|i: int| 0 <= i < pre.len() ==> (#[trigger] pre[i]).job_id@ != post[pre.len() as int].job_id@,
         valid_id(post[pre.len() as int].job_id@),
         fresh_state(post[pre.len() as int].state), post[pre.len() as int].history_output is None,
+        !post[pre.len() as int].aborted_before_start,
         m1 == m0.insert(post[pre.len() as int].job_id, pre.len() as usize),
         dag1.nodes_set() == dag0.nodes_set().insert(pre.len() as usize), dag1.edges() == dag0.edges(),
     ensures core_ok(post, m1, dag1, ready, cleanup, false),
